@@ -68,6 +68,7 @@ def harness(cfg, ns):
             obls.append(Obl(f"{b}:fallback-requests-GLPK_MI", P[-1]["solver"] == "GLPK_MI", rz))
             if b == "glpk_solvererror":
                 obls.append(Obl("glpk_solvererror:CBC-tried-first", len(P) == 2 and P[0]["solver"] == "CBC" and P[0].get("raised") == "SolverError", rz))
+            obls += pipeline.solver_option_obls(P, rz, prefix=f"{b}:")
             same_n = P[-1]["n"] == P0[-1]["n"]
             obls.append(Obl(f"{b}:same-candidates", same_n, rz))
             if same_n:
@@ -79,14 +80,29 @@ def harness(cfg, ns):
                 obls.append(Obl(f"{b}:same-optimal-disorder", core.eq(A.disorder, A0.disorder), rz))
                 sob, _ = pipeline.structure_obls(E, A, mode == "soft", rz)
                 obls += [Obl(f"{b}:" + o.name, o.e, rz) for o in sob]
+        import types
+        E["state"] = types.SimpleNamespace(problems=P0)      # the solver-option obligations of this call are about the CBC run
         sob, _ = pipeline.structure_obls(E, A0, mode == "soft", rz)
         obls += [Obl("cbc:" + o.name, o.e, rz) for o in sob]
         return obls
     return h
 
 
+_EXACT_SEARCH = {}
+
+
 def replay(case):
     """both back-ends on the real build: structure + same disorder"""
+    if "solver-asked-for-an-exact-optimum" in str(case.get("_obligation", "")):
+        # an option passed to solve() shows on continua where the solver has to branch, not on the small symbolic shapes:
+        # dense medium continua, both back-ends, best and soft, against an independent MILP over all tuples
+        if "r" not in _EXACT_SEARCH:      # one search per replay process, shared by every counterexample of this kind
+            cases = pipeline.dense_cases(120)
+            r = pipeline.real_medium_check(dict(cases=cases), mode="best", backends=("cbc", "glpk_import"))
+            if not r.get("reproduced"):
+                r = pipeline.real_medium_check(dict(cases=cases[:40]), mode="soft", backends=("cbc", "glpk_import"))
+            _EXACT_SEARCH["r"] = r
+        return dict(_EXACT_SEARCH["r"])
     r = {}
     for b in ["cbc", "glpk_import", "glpk_solvererror"]:
         r[b] = pipeline.replay_pipeline(dict(case, backend=b))
